@@ -1,6 +1,6 @@
 --------------------------- MODULE MemAdaptive_MC ---------------------------
 EXTENDS MemAdaptive
 CONSTANTS MaxThr, MaxMem
-MCRules == [low : 1..MaxThr, high : 1..MaxThr, lw : 1..MaxMem, hw : 1..MaxMem]
+MCRules == [low : 1..MaxThr, high : 1..MaxThr, lw : 1..MaxMem, hw : 1..MaxMem, cb : {0, 1}]
 MCMems  == (-1)..(MaxMem + 1)
 =============================================================================
